@@ -7,6 +7,7 @@ package chain
 
 import (
 	"sort"
+	"time"
 
 	"github.com/aergoio/aergo-lib/db"
 	"github.com/aergoio/aergo/v2/state"
@@ -60,6 +61,17 @@ func (cs *ChainService) VerifErrBlocks() []string {
 	}
 	sort.Strings(r)
 	return r
+}
+
+// VerifQuiesce waits until a signature verification that was started for the last
+// block but never awaited (the block failed earlier) has delivered its result, so that
+// the next delivery does not race with it. It owns a piece of nondeterminism (the
+// verifier's goroutines); it is not an oracle. Bounded at 60 s.
+func (cs *ChainService) VerifQuiesce() {
+	bv := cs.validator
+	for i := 0; bv.isNeedWait && len(bv.signVerifier.resultCh) == 0 && i < 60000; i++ {
+		time.Sleep(time.Millisecond)
+	}
 }
 
 // VerifStores returns the raw chain DB and state DB handles.
